@@ -24,6 +24,7 @@ def check(ctx):
     provrules.rule_amend_routes(ctx, facts, "R2")
     provrules.rule_mount(ctx, facts, "R3")
     provrules.rule_mount_scope(ctx, facts, "R3")
+    provrules.rule_mount_appends_only(ctx, facts, "R3")
     provrules.rule_pairs_keep_orientation(ctx, facts, "R7")
     provrules.rule_danglings_key_unique(ctx, facts, "R8")
     from .. import scopes
@@ -33,3 +34,6 @@ def check(ctx):
         collector.rule_danglings_arg(ctx, c, "R4")
         collector.rule_stale_isolated(ctx, c, "R4")
         collector.rule_cancel_inert(ctx, c, "R5")
+        # an attachment made through the handle on one thread and the span's finish on another travel in two queues: each
+        # queue is read to its end in the cycle that reads it (a per-cycle cap lets the finish overtake the attachment)
+        collector.rule_drain_keeps_live(ctx, c, "R9")
